@@ -622,13 +622,11 @@ class Gen:
             return None
         right = list(range(nl, len(frame)))
         keep = list(range(nl)) + sorted(self.rng.sample(right, self.rng.randint(1, max(1, len(right) - 1))))
-        nf = []
-        items = []
-        for j, i in enumerate(keep):
-            nm = self.name("m")
-            items.append(f"{nm} = {frame[i].ref}")
-            nf.append(Col(nm, frame[i].ty))
-        return ("select {" + ", ".join(items) + "}", "( select ( " + " ".join(f"( col {i} )" for i in keep) + " ) )", nf)
+        if len({frame[i].name for i in keep}) != len(keep):
+            return None
+        # plain column references (an alias would make every item a new computed column and hide the shape from the rewrite)
+        return ("select {" + ", ".join(frame[i].ref for i in keep) + "}", "( select ( " + " ".join(f"( col {i} )" for i in keep) + " ) )",
+                [frame[i].copy(ref=frame[i].name) for i in keep])
 
     def tr_filter_rnull(self, frame, sname):
         """after a left join: keep the rows without a partner (the anti-join shape of the EXCEPT rewrite)"""
